@@ -64,6 +64,7 @@ class Opts:
         self.pub_bases = False
         self.p_priv_item = None      # probability of a private type / enum / function (default: p_priv)
         self.static_fns = True
+        self.int_args_only = False   # arguments / returns that travel in one integer register (O4 execution)
         self.p_ptr_forward = 0.3
         self.p_cc = 0.3
         self.p_index = 0.3
@@ -168,6 +169,8 @@ class WorldGen:
     def arg_type(self, m):
         rng = self.rng
         if rng.random() < 0.6:
+            if self.o.int_args_only:
+                return ty_id(rng.choice(['u8', 'u16', 'u32', 'u64', 'i8', 'i16', 'i32', 'i64', 'bool']))
             return ty_id(rng.choice(SCALARS)[0])
         return self.pointer_type(m)
 
